@@ -9,3 +9,45 @@ mod tests;
 
 pub mod statistics;
 pub mod unit;
+
+/// Verification hooks for the HTTP properties (feature `verif-hooks`,
+/// add-only): builds the real `PrefixesApi` of a physical RIB.
+#[cfg(feature = "verif-hooks")]
+pub mod verif_hooks_http {
+    use std::sync::Arc;
+
+    use arc_swap::ArcSwap;
+
+    use super::http::PrefixesApi;
+    use super::rib::Rib;
+    use super::unit::{MoreSpecifics, QueryLimits, RibType};
+    use crate::common::frim::FrimMap;
+    use crate::http::ProcessRequest;
+    use crate::ingress;
+
+    /// The request processor of a physical RIB with an empty store, exactly
+    /// as `RibUnitRunner::new` constructs it.
+    pub fn mk_physical_prefixes_api(
+        http_api_path: &str,
+        shortest_prefix_ipv4: u8,
+        shortest_prefix_ipv6: u8,
+        ingresses: Arc<ingress::Register>,
+    ) -> Arc<dyn ProcessRequest> {
+        let rib = Arc::new(ArcSwap::from_pointee(Rib::new_physical()));
+        let query_limits = Arc::new(ArcSwap::from_pointee(QueryLimits {
+            more_specifics: MoreSpecifics {
+                shortest_prefix_ipv4,
+                shortest_prefix_ipv6,
+            },
+        }));
+        Arc::new(PrefixesApi::new(
+            rib,
+            Arc::new(http_api_path.to_string()),
+            query_limits,
+            RibType::Physical,
+            None,
+            Arc::new(FrimMap::default()),
+            ingresses,
+        ))
+    }
+}
